@@ -387,6 +387,8 @@ static json gen_opts(Rng &r, const SchemaGen &g, int depth)
 			}
 			if (g.vcb2 && t != "bool" && r.chance(1, 3))
 				o["vcb2"] = 1;
+			if (g.deprecated && !o.contains("simple") && r.chance(1, 6))
+				fl |= F_DEPRECATED | (r.chance(1, 2) ? F_DROP : 0);
 		}
 		if (g.vcb && o["t"] != "func" && r.chance(3, 10))
 			o["vcb"] = 1;
